@@ -2,25 +2,30 @@ import Model
 import Driver.Codec
 import Driver.Pure
 import Driver.Layers
+import Driver.OS
 open Driver
 
-def dispatch (fs : List (List Char)) : String :=
+def dispatch (st : DState) (fs : List (List Char)) : DState × String :=
   match pureCmd fs with
-  | some out => outFields out
+  | some out => (st, outFields out)
   | none =>
   match layerCmd fs with
-  | some out => outFields out
-  | none => "bad-op"
+  | some out => (st, outFields out)
+  | none =>
+  match osCmd st fs with
+  | some (st', out) => (st', outFields out)
+  | none => (st, "bad-op")
 
-partial def loop (hin hout : IO.FS.Stream) : IO Unit := do
+partial def loop (hin hout : IO.FS.Stream) (st : DState) : IO Unit := do
   let line ← hin.getLine
   if line.isEmpty then return ()
   let line := if line.endsWith "\n" then (line.dropEnd 1).toString else line
-  hout.putStrLn (dispatch (fields line))
-  loop hin hout
+  let (st', out) := dispatch st (fields line)
+  hout.putStrLn out
+  loop hin hout st'
 
 def main : IO Unit := do
   let hin ← IO.getStdin
   let hout ← IO.getStdout
-  loop hin hout
+  loop hin hout {}
   hout.flush
